@@ -10,7 +10,7 @@
     rawr / rawmultir: same answers (the harness runs them on a reused lzma_stream; the model has no handle state).
     dict <dictsize> <presethex> <ops…>   index-level dictionary model (LzDict.Dict), see `dictOps`
     xz <api> <flags> <reuse> <inslices> <outslices> <orighex> <filehex>      container level (harness/c03_xz.c)
-        api sd = XzDecode.xzDecode, sbd = XzDecode.xzBufferDecode, blk = Container.blockHeaderDecode + XzDecode.blockDecode
+        api sd = XzDecode.xzDecode, sbd = XzDecode.xzBufferDecode, alone = Alone.aloneDecode (no memory limit), blk = Container.blockHeaderDecode + XzDecode.blockDecode
         (flags = Check ID), all with XzEnv.fastEnv (Model/Lzma2.lean rawDecode behind the delta/BCJ models, every Block
         starting at position 0). reuse and the slicings do not exist for the model.
         answer "<ret> <consumed> <notices> <outlen> <lcp> <crc64>"
@@ -168,6 +168,13 @@ def xzRun (api : String) (flags : Nat) (orig : Array UInt8) (inp : List UInt8) :
     else
       let r := XzDecode.xzDecode XzEnv.fastEnv (XzDecode.Flags.ofNat flags) inp XZ_OUTCAP
       xzAnswer orig r.ret r.consumed r.events r.out
+  else if api == "alone" then
+    -- lzma_alone_decoder without a memory limit (Model/Alone.lean by b-c16, LZMA1 model as payload)
+    let pay : Alone.Payload := fun o rest =>
+      let r := Lzma.lzmaDecode { lc := o.lc, lp := o.lp, pb := o.pb } o.dictSize o.uncomp o.allowEopm rest [] XZ_OUTCAP
+      { ret := r.ret, out := r.out, consumed := r.consumed }
+    let r := Alone.aloneDecode pay { picky := false, memlimit := 18446744073709551615, memK := 0 } inp
+    xzAnswer orig (if r.ret == .ok then .bufError else r.ret) r.consumed r.events r.out
   else if api == "sbd" then
     let r := XzDecode.xzBufferDecode XzEnv.fastEnv flags inp XZ_OUTCAP
     xzAnswer orig r.ret r.consumed r.events r.out
